@@ -321,7 +321,7 @@ theorem default_danger_laws {doc : σ → Nat} {adv : σ → σ} {seek : Nat →
     ∧ (∀ {s t0 l t}, defaultW V s t0 l → t0 ≤ t → doc s ≤ t → t ≤ TERMINATED →
         V (seek t s) (Spec.seek t l))
     ∧ (∀ {s l t}, V s l → t ≤ TERMINATED →
-        SDPost V (defaultW V) l t (doc s ≤ t) (defaultSeekDanger doc seek t s))
+        SDPost V (defaultW V) l t True (defaultSeekDanger doc seek t s))
     ∧ (∀ {s t0 l t}, defaultW V s t0 l → t0 ≤ t → t ≤ TERMINATED →
         SDPost V (defaultW V) l t True (defaultSeekDanger doc seek t s)) := by
   refine ⟨?_, ?_, ?_, ?_, ?_⟩
@@ -338,7 +338,7 @@ theorem default_danger_laws {doc : σ → Nat} {adv : σ → σ} {seek : Nat →
     rw [Spec.seek_seek h0]
     exact hC.seek hV hd ht
   · intro s l t hV ht
-    exact (defaultSeekDanger_law hC hV ht).weaken (fun _ => trivial)
+    exact defaultSeekDanger_law hC hV ht
   · rintro s t0 l t ⟨l0, hV, hn, rfl⟩ h0 ht
     have hs := hC.sorted hV
     have h := defaultSeekDanger_law hC hV ht
